@@ -33,6 +33,10 @@ func TestEngine(t *testing.T) {
 	switch engine {
 	case "mint":
 		runMint(t, seed, n, dir)
+	case "auth":
+		runAuth(t, seed, n, dir)
+	case "lockup":
+		runLockup(t, seed, n, dir)
 	case "cl":
 		runCL(t, seed, n, dir)
 	default:
